@@ -98,6 +98,19 @@ func genGroup1() {
 			do("tokenr "+ha+" "+hb, true)
 		}
 	}
+	// --- every byte value against its would-be case partners (only 'A'..'Z' / 'a'..'z' may fold) -----
+	for x := 0; x < 256; x++ {
+		a := []byte{byte(x)}
+		for _, d := range []int{32, -32, 0} {
+			b := []byte{byte(x + d)}
+			ha, hb := hx.Hex(a), hx.Hex(b)
+			do("cstrcasecmp "+ha+" "+hb, true)
+			do("cstrcmp "+ha+" "+hb, true)
+			do("cstrcasestr "+hx.Hex([]byte{'q', byte(x), 'q'})+" "+hb, true)
+			do("casehasprefix "+hx.Hex([]byte{byte(x), 'q'})+" "+hb, true)
+		}
+		do("strhash "+hx.Hex(a), true)
+	}
 	// --- random longer inputs --------------------------------------------------------------------
 	n := 6000
 	if run.Thorough() {
